@@ -24,7 +24,7 @@ import time
 
 VERIF = os.path.dirname(os.path.dirname(os.path.abspath(__file__)))
 REPO = os.environ.get("VERIF_REPO", "/repo")
-VCHECK = os.path.join(VERIF, "bin", "vcheck")
+VCHECK = os.environ.get("VCHECK_BIN") or os.path.join(VERIF, "bin", "vcheck")
 
 
 def load_neutral(prop):
